@@ -85,6 +85,19 @@ fn gen(seed: u64, idx: u64, _tier: Tier) -> Plan {
     s.batch_size = *rng.pick(&[7i64, 16, 64]);
     s.port = *rng.pick(&[2002i64, 8686, 40_000]);
     s.status_interval = Some(*rng.pick(&[10i64, 600]));
+    // background settings vary per repetition: a refusal (or an effective value) must not depend on
+    // what the *other* keys say
+    if rng.chance(1, 2) {
+        s.client_stats = Some((*rng.pick(&["on", "yes"])).to_string());
+        s.persist_dir = Some("/tmp".into());
+    }
+    if rng.chance(1, 3) {
+        s.health_port = Some(8000 + rng.below(50) as i64);
+    }
+    if rng.chance(1, 3) {
+        s.fault_pct = 1 + rng.below(5) as i64;
+        s.fault_written = true;
+    }
     world_knobs(&mut rng, &mut plan, false);
     plan.world.cores = 5;
     plan.world.rcv_cap = 4096;
@@ -107,6 +120,7 @@ fn gen(seed: u64, idx: u64, _tier: Tier) -> Plan {
             s.client_stats = Some(pt.value.clone());
             s.persist_dir = Some("/tmp".into());
         }
+        "fault_percentage_bg" => {}
         "interface" => s.interface = pt.value.clone(),
         "seed" => s.seed_hex = pt.value.clone(),
         "missing" => s.omit.push(pt.value.clone()),
